@@ -152,6 +152,7 @@ struct GInfo { // C15: what the manager has reported about a group
 	std::vector<int> socks;
 	int status = 0; // RTR_MGR_CLOSED
 	bool removed = false;
+	bool removing = false; // rtr_mgr_remove_group is at work on it (already unlinked, sockets being stopped one by one)
 };
 
 struct GPending { // C15: consequence that must be visible once the reporting socket thread moves on
